@@ -170,6 +170,51 @@ def rich_nexus_docs(draw, max_taxa=5, max_trees=3, max_blocks=3, max_chars=6, re
             "content": None if feats["recased"] else content, "features": feats}
 
 
+PRIOR_LABELS = ["ant", "bee", "cat", "dog", "eel", "fox"]
+
+
+@st.composite
+def numeric_newick_docs(draw, max_taxa=6, max_trees=4):
+    """Newick statements whose leaf labels are INTEGERS (which lib/docs.py never writes): labels, not positions, in
+    Newick.  The integers are 1..n or a sparse subset of 1..9 and appear in drawn (usually non-ascending) order."""
+    ntax = draw(st.integers(2, max_taxa))
+    if draw(st.booleans()):
+        nums = list(range(1, ntax + 1))
+    else:
+        nums = sorted(draw(st.lists(st.integers(1, 9), min_size=ntax, max_size=ntax, unique=True)))
+    labels = [str(k) for k in draw(st.permutations(nums))]
+    fancy = draw(st.booleans())
+    trees = []
+    out = ""
+    for k in range(draw(st.integers(1, max_trees))):
+        spec = draw(docs.tree_specs(list(range(ntax)), max_leaves=max_taxa, fancy=fancy, blanks=False))
+        pre, rooted, weight, ncm = draw(pre_tokens(plain=not fancy))
+        s = draw(docs.newick_text(spec, labels, fancy))
+        if s == "":
+            spec["t"] = 0
+            s = labels[0]
+        out += pre + s + ";" + draw(st.sampled_from(["\n", "\n", " ", ""]))
+        trees.append({"name": None, "rooted": rooted, "weight": weight, "block": 0, "spec": docs.clean_spec(spec)})
+    body = out
+    for tok in ("[&R]", "[&U]", "[&r]", "[&u]"):
+        body = body.replace(tok, "")
+    feats = {"translate": False, "comment": "[" in body, "weight": any(t["weight"] is not None for t in trees),
+             "blocks": 1, "recased": False, "numeric": True}
+    content = {"taxon_labels": labels, "ntax": None, "trees": trees, "matrices": [], "features": feats}
+    return {"text": out, "schema": "newick", "kwargs": {}, "matrix_type": None, "content": content, "features": feats}
+
+
+@st.composite
+def prior_labels(draw):
+    """Labels a namespace holds before the document is read into it: other names, or integers in scrambled order."""
+    k = draw(st.integers(0, 3))
+    if k == 0:
+        return []
+    if k == 1:
+        return [str(x) for x in draw(st.lists(st.integers(1, 6), min_size=1, max_size=4, unique=True))]
+    return draw(st.lists(st.sampled_from(PRIOR_LABELS), min_size=1, max_size=5, unique=True))
+
+
 def features_of(doc):
     """{"translate", "comment", "weight", "blocks", "ntrees"} of a lib/docs.py or c13 document (text scan for the former)."""
     if doc.get("features"):
